@@ -86,6 +86,8 @@ PROPS["C10"] = {
          "params": {"quick": {"maxtxns": 1, "maxleaves": 8, "maxhashes": 4}, "thorough": {"maxtxns": 2, "maxleaves": 8, "maxhashes": 4}},
          "flags": {"quick": ["-timeout", "3000", "-maxpaths", "200000"], "thorough": ["-timeout", "5000", "-maxpaths", "1000000"]},
          "must_reach": {"VH_C10_MultiproofDecode": ["accepted", "rejected"]}},
+        {"pkg": "consensus", "harness": C10_VH, "run": "^VH_C10_CoveredFieldsInRange$", "params": {"quick": {}, "thorough": {}},
+         "flags": {"quick": ["-timeout", "2000"], "thorough": ["-timeout", "2000"]}, "must_reach": {"VH_C10_CoveredFieldsInRange": ["in-range", "out-of-range"]}},
         {"pkg": "consensus", "harness": C10_VH, "run": "^VH_C10_V2BlockEphemeral$",
          "params": {"quick": {"weight_uf": 1, "v1cur_fixed": 1, "tax_uf": 1, "spidx_uf": 1, "cflen": 1, "int_mode": 1, "cur_lift": 1}, "thorough": {"ephfull": 1, "weight_uf": 1, "v1cur_fixed": 1, "tax_uf": 1, "spidx_uf": 1, "cflen": 1, "int_mode": 1, "cur_lift": 1}},
          "flags": {"quick": ["-timeout", "1000", "-maxpaths", "100000"], "thorough": ["-timeout", "1000", "-maxpaths", "400000"]},
@@ -137,7 +139,7 @@ PROPS["C10"] = {
          "must_reach": {"VH_C10_ValidateV2": ["rejected"]}, "thorough_only": True},
     ],
     "tv_runs": {"quick": 0, "thorough": 0},
-    "bounds": {"quick": "validators: transaction shapes with the component groups listed in evidence.coverage.runs (1 element per populated component; v1 masks 643/519/769/16, v2 masks 3/12/16/32/128/769), fully symbolic contents, state, network parameters and supplement; decoders: arbitrary input of N bytes, N=40 (policy-bearing objects 20, v1 Transaction/V1Block 100, V2Transaction 24); every loop unwound to completion (path/loop budgets are unwinding assertions); allocation per site <= max(N,255) elements; multiproof block body: the real wire form of 1 v2 transaction (1 siacoin input, optional contract revision, arbitrary 64-bit leaf indices) + arbitrary leaf count < 8 + 0..3 arbitrary proof hashes decodes without panic; two v2 transactions of one block where the second spends an ephemeral siacoin parent with an arbitrary ID (incl. the ID of an attestation or output created by the first), both eras of the ephemeral-output fork: no panic in validation or application",
+    "bounds": {"quick": "validators: transaction shapes with the component groups listed in evidence.coverage.runs (1 element per populated component; v1 masks 643/519/769/16, v2 masks 3/12/16/32/128/769), fully symbolic contents, state, network parameters and supplement; decoders: arbitrary input of N bytes, N=40 (policy-bearing objects 20, v1 Transaction/V1Block 100, V2Transaction 24); every loop unwound to completion (path/loop budgets are unwinding assertions); allocation per site <= max(N,255) elements; multiproof block body: the real wire form of 1 v2 transaction (1 siacoin input, optional contract revision, arbitrary 64-bit leaf indices) + arbitrary leaf count < 8 + 0..3 arbitrary proof hashes decodes without panic; two v2 transactions of one block where the second spends an ephemeral siacoin parent with an arbitrary ID (incl. the ID of an attestation or output created by the first), both eras of the ephemeral-output fork: no panic in validation or application; coveredFieldsInRange <=> every index list is below the length of its own field (10 fields of pairwise different lengths)",
                "thorough": "N=64 / 26 / 140 / 40; multiproof with 2 transactions; ephemeral siafund parents and contract-creating first transactions"},
     "outside": ["inputs longer than N", "JSON/text Unmarshal entry points (hex text forms: see C20)", "multiproofs with more than 2 transactions or leaf counts >= 8, arbitrary bytes fed to the V2Block/multiproof decoders (the transaction part is a real encoding with symbolic field values)"],
     "stubs": ["fmt.Errorf/Sprintf: opaque values (formatting code not executed)"],
